@@ -47,9 +47,9 @@ def clause_tables(rep):
 def run(rep):
     common.load_contracts()
     from contracts.sql import C13_SHAPE_CASES
-    from contracts.grouping import WHERE_SHAPE_CASES, JOINER_SHAPE_CASES, MORE_PASS_SHAPE_CASES
+    from contracts.grouping import WHERE_SHAPE_CASES, JOINER_SHAPE_CASES, MORE_PASS_SHAPE_CASES, MORE_JOINER_SHAPE_CASES
     return generic.run_generic(
-        rep, tc.NAV_FUNCS + list(C13_SHAPE_CASES) + list(WHERE_SHAPE_CASES) + list(MORE_PASS_SHAPE_CASES) + [c for c in JOINER_SHAPE_CASES if 'identifier_list' in c[0]] + [(tc.GT, 'new group'), ('sqlparse.engine.grouping.group_where', 'call sites'),
+        rep, tc.NAV_FUNCS + list(C13_SHAPE_CASES) + list(WHERE_SHAPE_CASES) + list(MORE_PASS_SHAPE_CASES) + list(MORE_JOINER_SHAPE_CASES) + [c for c in JOINER_SHAPE_CASES if 'identifier_list' in c[0]] + [(tc.GT, 'new group'), ('sqlparse.engine.grouping.group_where', 'call sites'),
                              ('sqlparse.engine.grouping.group_where', 'call sites, inside a bracket or block group'),
                              ('sqlparse.sql.IdentifierList.get_identifiers', 'body'),
                              ('sqlparse.sql.Comparison.left', 'total'), ('sqlparse.sql.Comparison.right', 'total')] + tc.JOINER_FUNCS,
@@ -65,7 +65,8 @@ def run(rep):
                      'classes or literal / wildcard leaves; separators comma + whitespace run) returns exactly the written '
                      'argument nodes in order (the generator get_identifiers is executed in place on the explicit list); '
                      'Case.get_cases(skip_ws=True) on CASE (WHEN c THEN v){1,2} [ELSE e] END returns exactly the written '
-                     'WHEN/THEN/ELSE parts; group_where, group_identifier_list, group_functions, group_comparison and group_order '
+                     'WHEN/THEN/ELSE parts; group_where, group_identifier_list, group_functions, group_comparison, group_order, '
+                     'group_operator, group_typecasts, group_assignment and group_comments '
                      'build exactly the written construct on explicit statements SELECT <construct> FROM t (shape cases); which '
                      'neighbours the other joiner passes accept, and the composition of the passes on '
                      'grammar scripts (that these shapes are what the grouping builds) are covered by data / shape obligations '
